@@ -11,4 +11,9 @@ CLAIMS["C19"] = {
     "text": "Decides per match arm that Add/Sub/destructure/complete_with rebuild the same components, that is_after_or_eq_any is exactly the >=/OR table, that the pre-epoch microsecond conversion can reach i64::MIN, that every branch of the truncation helper can adjust by 0 ns (idempotence) and moves toward the epoch (agreement with the storage encoding), and that the conversion functions have no panic-capable site beyond range-checked SystemTime arithmetic.",
     "note": "Does not decide the round-trip identities as arithmetic facts over all i64 / all instants; trusts std::time arithmetic and Duration::as_micros truncation.",
 }
+CLAIMS["C06"] = {
+    "technique": "interprocedural CFG (supergraph) SCC + concrete-counter abstract simulation of the attempt loop, outcome-labelled edge reachability per error variant, provenance of wait duration / request id / metric fields",
+    "text": "Decides on every path of one update check: exactly one send site lies on a cycle and a concrete simulation of its attempt counter bounds the sends by 3; for each OmahaRequestError variant whether the loop can continue (never for Json/HttpBuilder/CupDecoration/CupValidation, only past the limit/is_user/poll-interval tests for HttpTransport, limit/poll-interval for HttpStatus); every retry passes one Timer::wait_for whose duration depends on the counter and on rand::*; only request_id(GUID::new()) changes between attempts; RequestsPerCheck/UpdateCheckResponseTime accounting sites.",
+    "note": "The numeric law 2^(k-1) s +/- 500 ms is not decided. Trusts rustc's await lowering, futures combinators, and that HttpRequest/Timer are reached only through their trait items.",
+}
 NOT_APPLICABLE = {}
